@@ -69,7 +69,9 @@ func (g *tokGen) GenerateTokens(n int, taken []uint32) ring.Tokens {
 			free = append(free, v)
 		}
 	}
-	g.rnd.Shuffle(len(free), func(a, b int) { free[a], free[b] = free[b], free[a] })
+	if !g.w.lowestGen {
+		g.rnd.Shuffle(len(free), func(a, b int) { free[a], free[b] = free[b], free[a] })
+	}
 	if n > len(free) {
 		n = len(free)
 	}
@@ -102,16 +104,42 @@ func (w *world) step() {
 }
 
 func (w *world) settle() {
-	synctest.Wait()
+	w.quiesce()
 	w.observe()
+}
+
+// quiesce waits until every goroutine of the bubble is blocked.  A recorder parked after a lost CAS attempt
+// is dealt with here: the interloper (another writer) acts, then the parked call is retried.
+func (w *world) quiesce() {
+	synctest.Wait()
+	for {
+		w.mu.Lock()
+		p := w.parked
+		w.mu.Unlock()
+		if p == nil || w.inInterloper {
+			return
+		}
+		w.inInterloper = true
+		if w.interloper != nil {
+			w.interloper(w)
+		}
+		w.inInterloper = false
+		w.step()
+		w.log(ev{"k": "unstall", "i": p.id, "now": w.now()})
+		w.mu.Lock()
+		w.parked = nil
+		w.mu.Unlock()
+		close(p.resume)
+		synctest.Wait()
+	}
 }
 
 // observe logs terminations and getter samples at a quiescent point.
 func (w *world) observe() {
 	for i := 1; i <= w.n; i++ {
 		c := w.inc[i]
-		if c == nil || c.over {
-			continue
+		if c == nil || c.over || c.rec.stalled {
+			continue // (a lifecycler in the middle of a retried store call has no settled state to sample)
 		}
 		if c.rec.dead && !c.crashed {
 			// died at an injected crash point: log it, then tear the corpse down without letting it
@@ -166,6 +194,7 @@ func (w *world) start(i int, c lcCfg, seed int64, crashAt int, side string) erro
 	w.step()
 	rec := &recorder{w: w, id: i, crashAt: crashAt, side: side, rejFrom: w.rejNext[0], rejLen: w.rejNext[1]}
 	w.rejNext = [2]int{}
+	rec.confAt, w.confNext = w.confNext, 0
 	if prev := w.inc[i]; prev != nil {
 		rec.reject = prev.rec.reject // the store's attitude towards this identity outlives the process
 	}
@@ -242,26 +271,33 @@ func (w *world) request(i int, op, arg string) {
 	c := w.inc[i]
 	w.step()
 	w.log(ev{"k": "req", "i": i, "now": w.now(), "op": op, "arg": arg})
-	var err error
 	ctx := context.Background()
-	switch op {
-	case "cs":
-		if c.classic != nil {
-			err = c.classic.ChangeState(ctx, stateOf(arg))
-		} else {
-			err = c.basic.ChangeState(ctx, stateOf(arg))
+	// the call runs on its own goroutine: its store operation may be parked (lost CAS attempt) until the
+	// driver has let the interloper act
+	done := make(chan error, 1)
+	go func() {
+		var err error
+		switch op {
+		case "cs":
+			if c.classic != nil {
+				err = c.classic.ChangeState(ctx, stateOf(arg))
+			} else {
+				err = c.basic.ChangeState(ctx, stateOf(arg))
+			}
+		case "ro":
+			if c.classic != nil {
+				err = c.classic.ChangeReadOnlyState(ctx, arg == "true")
+			} else {
+				err = c.basic.ChangeReadOnlyState(ctx, arg == "true")
+			}
+		case "claim":
+			j, _ := strconv.Atoi(arg)
+			err = c.classic.ClaimTokensFor(ctx, instID(j))
 		}
-	case "ro":
-		if c.classic != nil {
-			err = c.classic.ChangeReadOnlyState(ctx, arg == "true")
-		} else {
-			err = c.basic.ChangeReadOnlyState(ctx, arg == "true")
-		}
-	case "claim":
-		j, _ := strconv.Atoi(arg)
-		err = c.classic.ClaimTokensFor(ctx, instID(j))
-	}
-	synctest.Wait()
+		done <- err
+	}()
+	w.quiesce()
+	err := <-done
 	res := "ok"
 	if err != nil {
 		res = "err"
